@@ -1,14 +1,24 @@
 """C09 — signal receiver queue: bounded, oldest first, losses are countable.
 
-Model: lean/QmiModel/Model/RecvQueue.lean; theorems: Props/C09.lean.
-Tie: op-sequence correspondence against the real `QMI_SignalReceiver`.
+Models:   lean/QmiModel/Model/RecvQueue.lean (the sequential queue) and Model/RecvConc.lean (the receiver's methods at
+          statement / lock granularity for any number of deliverer and reader threads; the statement lists are generated
+          from the ASTs of pubsub.py and task.py by harness/tr_recvprog.py into Gen/RecvProg.lean on every run).
+Theorems: Props/C09.lean (sequential), Props/C09Conc.lean (all interleavings + obligations on the generated programs).
+Tie:      (a) op-sequence differential of the real `QMI_SignalReceiver` against the model driver;
+          (b) concurrent runs under the deterministic scheduler (harness/props/c09_conc.py): 2-3 deliverers, readers that are
+              plain threads or real `_TaskThread`s, discards, stop requests; judged by a model-free oracle, and their
+              critical sections, in lock order, replayed on the model driver (linearisation differential);
+          (c) blocking reads with real threads.
 """
 from __future__ import annotations
 
 import threading
 import time
 
+from harness import core
 from harness.core import Ctx, Failure, Broken, LeanDriver, Prop, Result, diff_streams
+
+GEN_FILE = core.LEAN / "QmiModel" / "Gen" / "RecvProg.lean"
 
 
 def _gen_scenario(rng, max_ops: int):
@@ -252,13 +262,111 @@ def _multi_reader(seed, n_readers: int, per_reader: int, cap: int, pol: str):
 
 class C09(Prop):
     id = "C09"
-    lean_modules = ["QmiModel.Props.C09"]
+    lean_modules = ["QmiModel.Props.C09", "QmiModel.Props.C09Conc"]
+    props_files = ["QmiModel/Props/C09.lean", "QmiModel/Props/C09Conc.lean"]
     driver = "drv_c09"
     modelled_not_verified = [
-        "threading.Condition: blocking get_next_signal (one reader with real threads; several readers + publisher under the "
-        "deterministic scheduler) is exercised by the harness, not part of the sequential Lean model (the wait/notify protocol is C11's model)",
-        "collections.deque(maxlen) semantics (model: dequeAppend; differentially checked here)",
+        "threading.Condition / RLock semantics (mutual exclusion, wait = atomic release-and-park, notify_all marks every parked "
+        "thread, wait_for re-tests the predicate after every wake-up and once more when the timeout ran out) are the premises of "
+        "Model/RecvConc.lean, mirrored from CPython, exercised through the scheduler's cooperative Condition",
+        "GIL atomicity of one deque operation / one integer read; collections.deque(maxlen) semantics (model: dequeAppend; "
+        "differentially checked here)",
+        "how stop_task wakes a parked task reader (registration in _wait_cond, notify_all) is an arbitrary `wake` action in "
+        "RecvConc (safety holds under every wake-up pattern); that the wake-up is never lost is property C11",
+        "the translator harness/tr_recvprog.py (AST shapes -> instruction lists; unknown statements fail loudly)",
     ]
+
+    def translate(self, ctx: Ctx):
+        from harness import tr_recvprog as T
+        progs = T.build(core.REPO)
+        core.write_if_changed(GEN_FILE, T.render(progs))
+        self._progs = T.signature(progs)
+        return [GEN_FILE]
+
+    # -- concurrent families (harness/props/c09_conc.py) ------------------------------------------------------------
+    def _conc_batch(self, specs, res: Result, found: dict, lines_acc: list, family: str):
+        from harness.props import c09_conc as C
+        for sp in specs:
+            run = C.run_spec(sp)
+            verdict = C.oracle(sp, run)
+            nthreads = len(sp.get("deliverers", ())) + len(sp.get("readers", ())) + len(sp.get("stops", ()))
+            res.note_case(("conc", family, repr(sorted(sp.items()))), nontrivial=nthreads >= 2)
+            res.count(f"conc_{family}_runs")
+            res.count("conc_steps", run.steps)
+            res.count(f"conc_policy_{sp.get('policy', 'weighted')}")
+            calls, sections, stops = C.calls_of(sp, run)
+            res.count("conc_critical_sections", len(sections))
+            res.count("conc_runs_with_overrun", 1 if any(c["op"] == "recv" and any(len(sections[i]["pre"]) >= sp["cap"] for i in c["sections"]) for c in calls) else 0)
+            res.count("conc_reader_sleeps", sum(1 for s_ in sections if s_["how"] == "park"))
+            for c in calls:
+                if c["op"] == "get" and c["res"] is not None:
+                    res.count(f"conc_get_{c['res'][0]}")
+            for (clause, detail) in verdict:
+                if clause == "@benign-deadlock":
+                    res.count("conc_runs_ending_with_a_reader_waiting_for_ever_on_an_empty_queue")
+                    continue
+                found.setdefault(clause, []).append((sp, detail))
+            if len(res.samples) < 5 and family not in getattr(self, "_sampled", set()):
+                self.__dict__.setdefault("_sampled", set()).add(family)
+                res.sample({"family": family, "spec": sp, "log": [list(map(repr, e)) for e in run.log[:14]]}, 8)
+            l, o = C.lin_lines(sp, run)
+            lines_acc.append((sp, l, o))
+            res.traces_validated += 1
+
+    def _conc_lin_diff(self, lines_acc: list, res: Result):
+        all_lines, all_outs, spans = [], [], []
+        for (sp, l, o) in lines_acc:
+            spans.append((len(all_lines), len(l), sp))
+            all_lines += l
+            all_outs += o
+        if not all_lines:
+            return
+        model = LeanDriver(self.driver).run(all_lines)
+        res.count("conc_linearisation_lines", len(all_lines))
+        k = diff_streams(all_lines, all_outs, model)
+        if k is not None:
+            for (start, ln, sp) in spans:
+                if start <= k < start + ln:
+                    res.broken.append(Broken(
+                        "correspondence", "RecvQueue.step on the linearisation vs concurrent QMI_SignalReceiver",
+                        f"line {k - start}: op={all_lines[k]!r} impl={all_outs[k]!r} model={model[k]!r} (before: {all_lines[max(start, k - 5):k]})",
+                        case={"conc": sp}))
+                    break
+
+    def _conc_report(self, found: dict, res: Result):
+        from harness.props import c09_conc as C
+        for clause, lst in found.items():
+            sp, detail = min(lst, key=lambda x: (len(x[0].get("deliverers", ())) + len(x[0].get("readers", ())), sum(x[0].get("deliverers", ()) or [0])))
+            small = C.shrink(sp, clause)
+            det = [d for (c, d) in C.oracle(small, C.run_spec(small)) if c == clause]
+            res.failures.append(Failure(
+                signature=f"conc:{clause}",
+                summary=f"conc:{clause}: cap={small['cap']} policy={small['pol']} deliverers={small.get('deliverers')} readers={small.get('readers')} "
+                        f"stops={small.get('stops')} seed={small['seed']!r}/{small.get('policy')}: {det[0] if det else detail}",
+                replay={"kind": "conc", "spec": small, "clause": clause, "seen_in_runs": len(lst)}))
+
+    def _concurrent(self, ctx: Ctx, res: Result):
+        from harness.props import c09_conc as C
+        found, lines_acc = {}, []
+        tag = f"{ctx.seed}"
+        # single-preemption sweep over small fixed scenarios: the running thread is demoted at every yield index in turn
+        sweep = []
+        for b, base in enumerate(C.preempt_bases()):
+            probe = dict(base, seed=f"sw:{b}", policy="pct", change_points=[])
+            n = C.run_spec(probe).steps
+            for k in range(1, n + 1, 1 if not ctx.quick else 2):
+                sweep.append(dict(base, seed=f"sw:{b}", policy="pct", change_points=[k + (ctx.seed % 2 if ctx.quick else 0)]))
+        self._conc_batch(sweep, res, found, lines_acc, "preempt_sweep")
+        # (ii) thread kind x timeout x queue content x time of the stop request
+        grid = C.kind_grid()
+        for rep in range(ctx.scale(3, 40)):
+            self._conc_batch([C.gen_kind(ctx.rng, f"k:{tag}:{j}:{rep}", cell) for j, cell in enumerate(grid)], res, found, lines_acc, "thread_kinds")
+        res.count("conc_thread_kind_cells", len(grid))
+        # (i) several deliverers + readers + discards, overruns included
+        self._conc_batch([C.gen_mix(ctx.rng, f"m:{tag}:{i}") for i in range(ctx.scale(700, 20000))], res, found, lines_acc, "deliverers_readers")
+        self._conc_batch([C.gen_block(ctx.rng, f"b:{tag}:{i}") for i in range(ctx.scale(250, 8000))], res, found, lines_acc, "sleeping_readers")
+        self._conc_lin_diff(lines_acc, res)
+        self._conc_report(found, res)
 
     def _differential(self, ctx: Ctx, n_scen: int, max_ops: int, res: Result):
         drv = LeanDriver(self.driver)
@@ -304,9 +412,13 @@ class C09(Prop):
                     break
 
     def correspondence(self, ctx: Ctx) -> Result:
-        res = Result(rule="scenario = (capacity, policy, op list) generated from the seeded PRNG with bursts around the "
-                          "capacity; non-trivial = contains both arrivals and reads; distinct by (cap, policy, ops)")
+        res = Result(rule="sequential: scenario = (capacity, policy, op list) generated from the seeded PRNG with bursts around the "
+                          "capacity; non-trivial = contains both arrivals and reads; distinct by (cap, policy, ops).  concurrent: "
+                          "scenario = (capacity, policy, prefill, signals per deliverer thread, readers (thread kind, timeouts, gates), "
+                          "discards, stop requests, scheduler seed/policy/change point); non-trivial = at least two threads; "
+                          "distinct by the whole scenario")
         self._differential(ctx, ctx.scale(20000, 400000), ctx.scale(60, 120), res)
+        self._concurrent(ctx, res)
         # blocking reads released by an arrival (real threads)
         for cap in ([1, 3] if ctx.quick else [1, 2, 3, 8]):
             for pol in ("old", "new"):
@@ -332,6 +444,29 @@ class C09(Prop):
 
     def search(self, ctx: Ctx, broken) -> Result:
         res = Result()
+        from harness.props import c09_conc as C
+        found, lines_acc = {}, []
+        # the disagreeing concurrent cases, then the systematic concurrent families with more repetitions
+        self._conc_batch([b.case["conc"] for b in broken if b.case and "conc" in b.case], res, found, lines_acc, "search_cases")
+        if not found:
+            sweep = []
+            for b_, base in enumerate(C.preempt_bases()):
+                n = C.run_spec(dict(base, seed=f"sw:{b_}", policy="pct", change_points=[])).steps
+                sweep += [dict(base, seed=f"sw:{b_}", policy="pct", change_points=[k]) for k in range(1, n + 1)]
+            self._conc_batch(sweep, res, found, lines_acc, "search_preempt_sweep")
+        if not found:
+            grid = C.kind_grid()
+            for rep in range(12):
+                self._conc_batch([C.gen_kind(ctx.rng, f"sk:{ctx.seed}:{j}:{rep}", cell) for j, cell in enumerate(grid)], res, found, lines_acc, "search_thread_kinds")
+                if found:
+                    break
+        if not found:
+            self._conc_batch([C.gen_mix(ctx.rng, f"sm:{ctx.seed}:{i}") for i in range(3000)], res, found, lines_acc, "search_deliverers_readers")
+        if not found:
+            self._conc_batch([C.gen_block(ctx.rng, f"sb:{ctx.seed}:{i}") for i in range(1500)], res, found, lines_acc, "search_sleeping_readers")
+        self._conc_report(found, res)
+        if res.failures:
+            return res
         # replay the disagreeing cases first, then a systematic sweep: all op strings up to length L for small caps
         for b in broken:
             if b.case and "ops" in b.case:
@@ -355,6 +490,11 @@ class C09(Prop):
         return res
 
     def replay(self, ctx: Ctx, rp: dict):
+        if rp.get("kind") == "conc":
+            from harness.props import c09_conc as C
+            verdict = [c for (c, d) in C.oracle(rp["spec"], C.run_spec(rp["spec"])) if not c.startswith("@")]
+            c = (rp.get("clause") if rp.get("clause") in verdict else (verdict[0] if verdict else None))
+            return Failure(f"conc:{c}", f"{rp['spec']}: {verdict}", rp) if c else None
         if rp.get("kind") == "multi":
             c, _ = _multi_reader(rp["seed"], rp["readers"], rp["per"], rp["cap"], rp["policy"])
         elif rp.get("kind") == "block":
